@@ -210,3 +210,104 @@ def nodes_with_guards(fnode, pred, early=False):
                         out.append((n, guards))
     rec(fnode.body, [])
     return out
+
+
+# ---------------------------------------------------------------------------------------------------------------------
+# statement / expression containment modulo renaming of local variables (wiring rules)
+# ---------------------------------------------------------------------------------------------------------------------
+import builtins as _builtins
+import functools as _functools
+
+
+@_functools.lru_cache(maxsize=512)
+def _parsed(src):
+    try:
+        return ast.parse(src)
+    except SyntaxError:
+        return None
+
+
+def _locals_of(tree):
+    out = set()
+    for n in ast.walk(tree):
+        if isinstance(n, ast.Name) and isinstance(n.ctx, (ast.Store, ast.Del)):
+            out.add(n.id)
+        elif isinstance(n, ast.arg) and n.arg not in ('self', 'cls'):
+            out.add(n.arg)
+    return out
+
+
+def _unify(p, c, loc, fwd, bwd):
+    """pattern node p vs candidate node c; Names may differ if the candidate's is a local of the function (consistently)"""
+    if type(p) is not type(c):
+        return False
+    if isinstance(p, ast.Name):
+        if p.id == c.id and p.id not in fwd and c.id not in bwd:
+            return True
+        if p.id in fwd or c.id in bwd:
+            return fwd.get(p.id) == c.id and bwd.get(c.id) == p.id
+        if c.id in loc and not hasattr(_builtins, p.id):
+            fwd[p.id] = c.id
+            bwd[c.id] = p.id
+            return True
+        return False
+    if isinstance(p, ast.arg):
+        return _unify(ast.Name(id=p.arg, ctx=ast.Load()), ast.Name(id=c.arg, ctx=ast.Load()), loc, fwd, bwd)
+    for f in p._fields:
+        if f in ('ctx', 'type_comment', 'lineno', 'col_offset', 'end_lineno', 'end_col_offset', 'kind'):
+            continue
+        a, b = getattr(p, f, None), getattr(c, f, None)
+        if isinstance(a, list):
+            if not isinstance(b, list) or len(a) != len(b):
+                return False
+            for x, y in zip(a, b):
+                if isinstance(x, ast.AST):
+                    if not _unify(x, y, loc, fwd, bwd):
+                        return False
+                elif x != y:
+                    return False
+        elif isinstance(a, ast.AST):
+            if not isinstance(b, ast.AST) or not _unify(a, b, loc, fwd, bwd):
+                return False
+        elif a != b:
+            return False
+    return True
+
+
+def has(src, fragment):
+    """Does the function source ``src`` (``ast.unparse`` text) contain ``fragment`` -- a statement or expression -- up to a
+    consistent renaming of the function's local variables?  Fragments that are not parseable on their own (cut-off text) and
+    sources that do not parse fall back to plain text containment."""
+    if not isinstance(src, str):
+        return fragment in src          # a collection, not source text
+    if fragment in src:
+        return True
+    tree, pat = _parsed(src), _parsed(fragment)
+    header_only = False
+    if tree is not None and pat is None and fragment.lstrip().startswith(('for ', 'if ', 'while ', 'with ')):
+        pat = _parsed(fragment.strip().rstrip(':') + ':\n    pass')
+        header_only = pat is not None
+    if tree is None or pat is None or len(pat.body) != 1:
+        return False
+    p = pat.body[0]
+    if isinstance(p, ast.Expr):
+        p = p.value
+    loc = _locals_of(tree)
+    for c in ast.walk(tree):
+        if type(c) is not type(p):
+            continue
+        if header_only:
+            fwd, bwd = {}, {}
+            fields = {'For': ('target', 'iter'), 'If': ('test',), 'While': ('test',), 'With': ('items',)}[type(p).__name__]
+            ok = True
+            for f in fields:
+                a, b = getattr(p, f), getattr(c, f)
+                if isinstance(a, list):
+                    ok = ok and len(a) == len(b) and all(_unify(x, y, loc, fwd, bwd) for x, y in zip(a, b))
+                else:
+                    ok = ok and _unify(a, b, loc, fwd, bwd)
+            if ok:
+                return True
+        elif _unify(p, c, loc, {}, {}):
+            return True
+    return False
